@@ -262,6 +262,8 @@ Outcome exec_c14a(const C14aCase& cc, bool keep_log, Stats* stats) {
     tls_blocks += sr.tls_blocks;
     if (sr.deadlock || sr.steps_exceeded) viol("c14:stuck", sr.deadlock ? "deadlock" : "steps", sr.deadlock_info);
   };
+  clk.active = true; clk.now = 1790000000LL;
+  const int64_t clock_reads_before = clk.reads;
   run_thread([&] {
     ld.load(zi.bytes, &subject, "subject");
     decoy_fixed = cctz::fixed_time_zone(cctz::seconds(3600));
@@ -273,6 +275,7 @@ Outcome exec_c14a(const C14aCase& cc, bool keep_log, Stats* stats) {
         q = civil_q(cs);
       }
       asked[i] = q;
+      clk.now = 1790000000LL + static_cast<int64_t>(i) * 40 * 86400;   // the calendar moves on by 40 days per call
       errno = (i % 3 == 0) ? ERANGE : ((i % 3 == 1) ? 0 : EINVAL);   // ambient C state left by "earlier calls" must not matter
       if (c.steps[i].zone != 0) {
         // Decoy: the same kind of call on a different zone; its answer is not judged here.
@@ -294,6 +297,7 @@ Outcome exec_c14a(const C14aCase& cc, bool keep_log, Stats* stats) {
       auto it = zi.want.find(key);
       if (it == zi.want.end()) {
         std::string w;
+        clk.now = 1790000000LL - 7000LL * 86400 - static_cast<int64_t>(i) * 86400;   // references are produced years earlier
         run_thread([&] {
           cctz::time_zone twin;
           errno = 0;
@@ -311,6 +315,7 @@ Outcome exec_c14a(const C14aCase& cc, bool keep_log, Stats* stats) {
   }
   if (random_mode) {
     // Second reference: one fresh copy, on a fresh thread, that is asked the same questions in reverse order.
+    clk.now = 1790000000LL + 30000LL * 86400;   // ... and the reversed history eighty years later
     run_thread([&] {
       cctz::time_zone rev;
       ld.load(zi.bytes, &rev, "rev");
@@ -340,9 +345,11 @@ Outcome exec_c14a(const C14aCase& cc, bool keep_log, Stats* stats) {
     stats->add("fresh_twin_loads", fresh_loads);
     stats->add(random_mode ? "random_histories" : "enumerated_hint_states");
     if (tls_blocks) stats->add("probe.thread_local_instances_created", tls_blocks);
+    if (clk.reads != clock_reads_before) stats->add("probe.library_read_the_clock", clk.reads - clock_reads_before);
     if (!rt.ub.empty()) stats->add("ubsan_reports_counted_not_judged", static_cast<int64_t>(rt.ub.size()));
   }
   rt.faults_fired.clear(); rt.probes.clear();
+  clk.active = false;
   return out;
 }
 
